@@ -938,9 +938,21 @@ func ruleResponsesBuiltByBuildMsg(c *Ctx, rule string) {
 			}
 			return true
 		}
+		if phi, isPhi := v.(*ssa.Phi); isPhi && d < 6 {
+			for _, e := range phi.Edges {
+				if !built(e, d+1) {
+					return false
+				}
+			}
+			return len(phi.Edges) > 0
+		}
 		call, _ := callOf(v)
-		if call == nil || d > 4 {
+		if call == nil || d > 6 {
 			return false
+		}
+		// attributes appended to a message buildMsg started keep its head in front
+		if b, isB := call.Call.Value.(*ssa.Builtin); isB && b.Name() == "append" && len(call.Call.Args) > 0 {
+			return built(call.Call.Args[0], d+1)
 		}
 		h := call.Call.StaticCallee()
 		if h == buildMsg {
